@@ -39,6 +39,9 @@ Check(r) ==
          /\ Report(d.cubes = v.cubes, r.id, "path-cubes")
     [] r.what = "hist" ->
          Report(r.default = r.variant, r.id, "history-answers")
+    [] r.what = "diverged" ->
+         \* the same seeded workload took a different course: an earlier answer (a handle, a table size) differed
+         Report(FALSE, r.id, "workload-diverged-from-default-build")
 
 Init == l = 1
 Next == /\ l <= Len(Rec) /\ Check(Rec[l]) \in BOOLEAN /\ l' = l + 1
